@@ -14,7 +14,7 @@ PROP = dict(
                  "ada's protocol/hostname of a reference equal those of its own href re-parsed (the driver reads them from the href)"],
     level_text="Theorems for all item trees with unique ids x all operator configurations x all oracle answers: a request is attached only to nodes whose URL passed "
                "NormalizeURL's scheme/host tests and the include/exclude blocks (defaults appended), wherever the node sits; a rejected seed gets no request; "
-               "filter algebra (substring test exact, defaults always present, include required, exclusion wins, the lines of ALL --exclusion-file files are in force, GenerateCrawlConfig keeps the operator's entries as typed: the string filters are case-sensitive). Model tied to the real preprocess() + GenerateCrawlConfig() "
-               "by a differential check on generated trees and URL texts on every run; every request is judged against the OPERATOR's lists (gen_cfg of the input, never what GenerateCrawlConfig returned), filter strings with upper-case letters and planted URLs that contain a filter string as typed / with other letter case are part of the generator; the exclusion regexes are spread over 0-3 real files and the effective compiled list is compared with the model's concatenation, the regex answers given to model and monitors come from the driver's own compilation of every line of every file.",
+               "filter algebra (substring test exact, defaults always present, include required, exclusion wins, the lines of ALL --exclusion-file files are in force, GenerateCrawlConfig keeps the operator's entries as typed: the string filters are case-sensitive, the last line of an exclusion file counts with or without a final newline / with CRLF). Model tied to the real preprocess() + GenerateCrawlConfig() "
+               "by a differential check on generated trees and URL texts on every run; exclusion files are written byte for byte in six styles (LF, no final newline, CRLF, CRLF without final newline, blank line in between, empty last line) and the model reads the CONTENT (read_lines = bufio.ScanLines); a seed at the working depth arrives fresh or with URL.Parse() already called, as the three seed sources deliver it; every request is judged against the OPERATOR's lists (gen_cfg of the input, never what GenerateCrawlConfig returned), filter strings with upper-case letters and planted URLs that contain a filter string as typed / with other letter case are part of the generator; the exclusion regexes are spread over 0-3 real files and the effective compiled list is compared with the model's concatenation, the regex answers given to model and monitors come from the driver's own compilation of every line of every file.",
     technique="Coq model of the include/exclude/shape tests refining the pre-processing oracle of the shared stage model; differential check against the real preprocess()",
 )
